@@ -334,6 +334,7 @@ func TestC12(t *testing.T) {
 			"oracle: not listed / SELECT / no list => backend bytes identical to the client's; otherwise the backend's frame is well-framed and decodes (reference codec) to the client's request with only the consistency replaced by the override, same header flags and custom payload; "+
 			"non-trivial = an overridden request with >=1 optional field or header flag, or an untouched SELECT at a listed level; distinct by (config, request bytes hash)")
 	defer finish(t, rec)
+	rec.SetJournalAll(true)
 	rec.Assume("SELECT-ness ground truth: first keyword of the text (QUERY) or of the text the id was prepared from (EXECUTE); unknown ids and batches are writes",
 		"configuration through proxy.Config (hook VerifConsistencies); spellings/flags/YAML of the same options are C20's business")
 
